@@ -209,10 +209,8 @@ class LayerRuleViolationDetector(RuleViolationBaseDetector):
         """If no not explicitly requested dependency is present, all possible not present dependencies will be
         returned. If there is one dependency per rule subject, an empty list will be returned.
         """
-        if any(
-            len(not_explicitly_requested_dependencies_of_module) > 0
-            for not_explicitly_requested_dependencies_of_module in not_explicitly_requested_dependencies.values()
-        ):
+        # imports between modules of the same layer do not count as access to something else
+        if self._get_realised_dependencies(not_explicitly_requested_dependencies):
             return set()
 
         dependencies = self._append_missing_dependencies(
